@@ -326,7 +326,7 @@ pub fn plan(id: &str, tier: &str, seed: u64, round: u64) -> Plan {
             cfg.allow_placeholders = true;
             cfg.allow_ci = false;
             cfg.allow_default_with = false;
-            let mut specs: Vec<EnumSpec> = (0..n).map(|_| gen::gen_string(&mut rg, &cfg)).collect();
+            let mut specs: Vec<EnumSpec> = (0..n).map(|i| if i % 10 == 9 { gen::gen_prefix_placeholder(&mut rg) } else { gen::gen_string(&mut rg, &cfg) }).collect();
             name_specs(&mut specs, round);
             Plan {
                 specs,
@@ -341,12 +341,20 @@ pub fn plan(id: &str, tier: &str, seed: u64, round: u64) -> Plan {
         "C18" => {
             let n = if thorough { 512 } else { 320 };
             let mut cfg = string_cfg(id);
-            cfg.allow_default = false;
+            cfg.allow_default = true;
             let mut specs: Vec<EnumSpec> = (0..n)
                 .map(|i| {
                     let mut c = cfg.clone();
                     c.parse_err = Some(i % 3 != 2);
-                    gen::gen_string(&mut rg, &c)
+                    let mut s = gen::gen_string(&mut rg, &c);
+                    // C18's domain has no (effective) default variant: a `default` variant may only
+                    // appear disabled, where it must not act as a catch-all
+                    for v in s.variants.iter_mut() {
+                        if v.is_default() && !v.disabled() {
+                            v.groups.push(vec![VAttr::Disabled]);
+                        }
+                    }
+                    s
                 })
                 .collect();
             name_specs(&mut specs, round);
